@@ -1,6 +1,7 @@
 package main
 
 import (
+	"encoding/hex"
 	"fmt"
 	"go/constant"
 	"go/token"
@@ -300,6 +301,7 @@ func runC07(c *Ctx) {
 	checkWitnessAll(c, "R5.3")
 	checkBugValidateShape(c)
 	checkMergeResultEntityUse(c)
+	checkHashIsValidCanonical(c, "R7.12")
 	checkIdentityMergeComparesCommits(c)
 	roots := dataEntryPoints(w)
 	if len(roots) < 15 {
@@ -992,4 +994,89 @@ func hasOriginCallAny(v ssa.Value, suffix string) bool {
 		}
 	}
 	return false
+}
+
+// R7.12: what counts as a git hash. Hash.IsValid is what Validate applies to the file hashes of create /
+// add-comment / edit-comment operations (local input and remote data alike): the canonical spelling is
+// lower-case hexadecimal of 40 or 64 characters. A wider acceptance lets through operations that other
+// replicas (and git itself, for the attached-files tree) refuse.
+func checkHashIsValidCanonical(c *Ctx, rule string) {
+	w := c.W
+	c.Doc(rule, "repository.Hash.IsValid, evaluated on its SSA by the checker's finite-domain evaluator: accepts exactly the lengths 40 and 64 (among 0,1,39,40,41,63,64,65,128) and, at each position class (first, middle, last) of a 40-character string, exactly the characters 0-9a-f among all of U+0000–U+02FF")
+	fn := w.Method("repository", "Hash", "IsValid")
+	if fn == nil {
+		c.Undecided(rule, "anchor:repository.Hash.IsValid", "repository", "not found")
+		return
+	}
+	c.seeFn(funcName(fn))
+	pos := w.FnPos(fn)
+	ext := map[string]func(args []fval) (fval, error){
+		// pure library functions a validity test may reasonably be written with, computed natively
+		"encoding/hex.DecodeString": func(a []fval) (fval, error) {
+			if len(a) != 1 || a[0].k != fStr {
+				return fval{}, fmt.Errorf("unexpected arguments")
+			}
+			_, err := hex.DecodeString(string(a[0].rs))
+			return fval{k: fTuple, tu: []fval{{k: fStr}, {k: fErr, b: err != nil}}}, nil
+		},
+		"strings.ToLower": func(a []fval) (fval, error) {
+			if len(a) != 1 || a[0].k != fStr {
+				return fval{}, fmt.Errorf("unexpected arguments")
+			}
+			return fval{k: fStr, rs: []rune(strings.ToLower(string(a[0].rs)))}, nil
+		},
+	}
+	eval := func(rs []rune) (bool, error) {
+		env := &fenv{concrete: true, extern: ext, cells: map[int]*fval{}}
+		out, err := env.run(fn, []fval{{k: fStr, rs: rs}}, 0)
+		if err != nil || len(out) != 1 {
+			return false, fmt.Errorf("%v", err)
+		}
+		return out[0].b, nil
+	}
+	zeros := func(n int) []rune {
+		rs := make([]rune, n)
+		for i := range rs {
+			rs[i] = '0'
+		}
+		return rs
+	}
+	bad := ""
+	for _, n := range []int{0, 1, 39, 40, 41, 63, 64, 65, 128} {
+		c.Sites++
+		got, err := eval(zeros(n))
+		if err != nil {
+			c.Info(rule, "Hash.IsValid:canonical", pos, "not interpreted: "+err.Error())
+			return
+		}
+		if got != (n == 40 || n == 64) && bad == "" {
+			bad = fmt.Sprintf("a string of %d hexadecimal digits is answered %v", n, got)
+		}
+	}
+	for _, at := range []int{0, 17, 39} {
+		for r := rune(0); r <= 0x2FF; r++ {
+			c.Sites++
+			rs := zeros(40)
+			rs[at] = r
+			if r >= 0x80 {
+				// keep the byte length at 40: a multi-byte character replaces as many digits as it has bytes
+				nb := len(string(r))
+				if at+nb > 40 {
+					continue
+				}
+				rs = append(append(append([]rune{}, rs[:at]...), r), rs[at+nb:]...)
+			}
+			got, err := eval(rs)
+			if err != nil {
+				c.Info(rule, "Hash.IsValid:canonical", pos, "not interpreted: "+err.Error())
+				return
+			}
+			want := (r >= '0' && r <= '9') || (r >= 'a' && r <= 'f')
+			if got != want && bad == "" {
+				bad = fmt.Sprintf("a 40-character string with %q at position %d is answered %v", r, at, got)
+			}
+		}
+	}
+	c.Check(bad == "", rule, "Hash.IsValid:canonical", pos, "accepts exactly lower-case hexadecimal strings of length 40 or 64",
+		bad+": file hashes in another spelling are committed by this replica and refused ('file with invalid hash') by every other one")
 }
